@@ -215,9 +215,9 @@ def resolve_pass(manifest):
 
 
 EMIT_RULES = [
-    (r"directive->getSize\(\)", "V_getSize(directive)", 2),
-    (r"directive->getToken\(\)", "Directive_getToken(directive)", 5),
-    (r"directive->getValue\(\)", "V_getValue(directive)", 4),
+    (r"directive->getSize\(\)", "V_getSize(directive)", 1),
+    (r"directive->getToken\(\)", "Directive_getToken(directive)", 3),
+    (r"directive->getValue\(\)", "V_getValue(directive)", 1),
     (r"\bToken::(\w+)", r"T_\1", 4),
     (r"auto funcDirective = dynamic_cast<Func\*>\(directive\.get\(\)\);", "Directive *funcDirective = directive;", 1, 1),
     (r"auto procDirective = dynamic_cast<Proc\*>\(directive\.get\(\)\);", "Directive *procDirective = directive;", 1, 1),
@@ -287,16 +287,25 @@ __CPROVER_assigns()
 """
 
 
+INSTRLEN_LOOP_CONTRACT = True
+
+
 def instrLen(manifest, with_contract=True):
     src = Source("hexasm.hpp", manifest)
     b, _, _ = src.block_after(r"static int instrLen\(int labelOffset, int byteOffset, int minLength=1\) \{", "instrLen")
-    if with_contract:
-        b = rewrite(b, [(r"while \(length < numNibbles\(labelOffset - byteOffset - length\)\) \{",
+    # the loop contract is spliced onto the growth loop when it has the known shape; any other shape (for loop, no loop at
+    # all) is left as it is and the jobs unwind it 9 times with unwinding assertions (lengths are at most 8)
+    global INSTRLEN_LOOP_CONTRACT
+    shape = r"while \(length < numNibbles\(labelOffset - byteOffset - length\)\) \{"
+    INSTRLEN_LOOP_CONTRACT = len(re.findall(shape, b)) == 1 and len(re.findall(r"\b(?:while|for)\b", b)) == 1
+    if with_contract and INSTRLEN_LOOP_CONTRACT:
+        b = rewrite(b, [(shape,
                          "while (length < numNibbles(labelOffset - byteOffset - length))\n"
                          "  __CPROVER_assigns(length)\n"
                          "  __CPROVER_loop_invariant(length >= minLength && length <= 8)\n"
                          "  __CPROVER_decreases(8 - length)\n  {", 1, 1)], "instrLen", manifest)
     leftover_check(b, "instrLen")
+    manifest.append({"unit": "instrLen", "loop_contract_spliced": INSTRLEN_LOOP_CONTRACT})
     return "static int instrLen(int labelOffset, int byteOffset, int minLength)" + (INSTRLEN_CONTRACT if with_contract else "\n") + b + "\n"
 
 
@@ -316,6 +325,7 @@ def emit_debug_parts(manifest):
         bodies.insert(0, fn[lb:rb + 1])
         skeleton = skeleton[:m.start()] + "LOOP;" + skeleton[rb + 1:]
     sk = " ".join(strip_comments(skeleton).split())
+    sk = re.sub(r"\bassert\((?:[^()]|\([^()]*\))*\); ?", "", sk)   # assert() statements between the loops are not part of the structure
     want = ("{ uint32_t tableSize = debugInfo.size(); outputFile.write(reinterpret_cast<const char*>(&tableSize), sizeof(uint32_t)); LOOP; "
             "outputFile.write(reinterpret_cast<const char*>(&tableSize), sizeof(uint32_t)); uint32_t tableIndex = 0; LOOP; }")
     if sk != want:
